@@ -636,10 +636,17 @@ def run() -> int:
             what = f"{op}: graph nodes={b['nodes']} di={b['di']} bi={b['bi']} S={b['S']}: observed {b['observed']}, definition gives {b['expected']} (native validation corpus)"
             rep.add_violation(Violation(PROP, [f"{op}"], what, {"property": PROP, **b}))
     rep.extra.update({"states": max(states, 1), "transitions": max(rep.obligations, 1), "traces_validated_against_impl": rep.counters.get("validated_native", 0), "explanation_states": "states = Boolean variables of the symbolic graphs/subsets summed over queries (each query covers 2^vars concrete inputs); transitions = operation queries"})
+    from .. import history_runs
+
+    history_runs.run(rep, PROP)
     return rep.finish()
 
 
 def replay(payload: dict) -> int:
+    if payload.get("kind") == "history":
+        from .. import history_runs
+
+        return history_runs.replay(PROP, payload)
     from y0.dsl import Variable
 
     V = lambda n: Variable(n)
